@@ -127,11 +127,27 @@ func newSchedGen(r *RNG, tier string, profile string) *schedGen {
 			}
 		}
 		nt := 2 + r.Intn(2)
+		// owned mode: every key has one writer (key i belongs to thread i mod nt), so that no two mutators of ONE key overlap
+		// (known finding D17) and every lost or resurrected update is attributable to interference BETWEEN keys
+		owned := r.Bool(50)
 		for t := 0; t < nt; t++ {
 			var ops []string
 			for j := 0; j < 1+r.Intn(3); j++ {
-				k := keys[r.Intn(len(keys))]
-				switch r.Pick(35, 25, 15, 8, 8) {
+				ki := r.Intn(len(keys))
+				k := keys[ki]
+				c := r.Pick(35, 25, 15, 8, 8)
+				if owned && (c == 0 || c == 2) {
+					if t >= len(keys) {
+						c = 1
+					} else {
+						ki = t + nt*r.Intn((len(keys)-t+nt-1)/nt)
+						k = keys[ki]
+						if c == 0 && r.Bool(40) {
+							c = 2
+						}
+					}
+				}
+				switch c {
 				case 0:
 					ops = append(ops, "put:"+k+":"+val())
 				case 1:
@@ -171,7 +187,12 @@ func newSchedGen(r *RNG, tier string, profile string) *schedGen {
 			sched = append(sched, strconv.Itoa(t))
 		}
 	}
-	g.ops = append(g.ops, mkOp("srun", "sched", strings.Join(sched, ","), "max", "400"))
+	if profile != "c12" && r.Bool(60) {
+		// every lock acquisition of the index, primary, freelist and store is a scheduling point too
+		g.ops = append(g.ops, mkOp("srun", "sched", strings.Join(sched, ","), "max", "3000", "locks", "1"))
+	} else {
+		g.ops = append(g.ops, mkOp("srun", "sched", strings.Join(sched, ","), "max", "400"))
+	}
 	if profile == "c13" {
 		g.ops = append(g.ops, mkOp("sfinal", "k", strings.Join(keys, ","), "acct", "1"))
 	} else {
